@@ -20,6 +20,7 @@ extern "C" {
   void vf_havoc(void* p, uint64_t n);           // n arbitrary bytes
   void vf_at_throw(void);                       // defined by the harness: called at every throw (cut mode) / from VF_CATCH
   void vf_end(void);                            // end of path (native: exit 0)
+  void vf_scribble_stack(uint8_t pattern);      // native: fill the stack area below with a pattern (no effect in the solver)
   uint64_t vf_buffer_room(const void* p);       // bytes from p to the end of the object p points into (CBMC); natively unknown (UINT64_MAX)
   // symbolic file system (engine/vfs.c; native: files in a scratch directory)
   uint8_t* vfs_data(int i);
